@@ -105,6 +105,7 @@ def tlc_env(xmx="3g"):
 
 
 VERDICT_RE = re.compile(r'^<<"(?:VERDICT|CONF)", "(.*)">>$')
+STATS_RE = re.compile(r'^<<"STATS", "(.*)">>$')
 END_RE = re.compile(r'^<<"TRACE-END", (\d+), (\d+)>>')
 
 
@@ -128,8 +129,12 @@ def run_trace_tlc(work, spec, trace_file, kvcfg, tag, cfgname=None, timeout=1800
            "-config", cfg, spec + ".tla"]
     r = subprocess.run(cmd, cwd=SPEC, env=env, stdout=subprocess.PIPE, stderr=subprocess.STDOUT, text=True)
     shutil.rmtree(meta, ignore_errors=True)
-    verdicts, consumed, total, states = [], None, None, 0
+    verdicts, consumed, total, states, mstats = [], None, None, 0, {}
     for line in r.stdout.splitlines():
+        m = STATS_RE.match(line.strip())
+        if m:
+            mstats = json.loads(_unescape(m.group(1)))
+            continue
         m = VERDICT_RE.match(line.strip())
         if m:
             verdicts.append(json.loads(_unescape(m.group(1))))
@@ -143,7 +148,7 @@ def run_trace_tlc(work, spec, trace_file, kvcfg, tag, cfgname=None, timeout=1800
     if consumed is None or consumed != total or "Error:" in r.stdout:
         tail = "\n".join(l for l in r.stdout.splitlines() if not l.startswith(("/\\", "State "))) [-3000:]
         raise ToolError("trace validation did not consume the trace (%s/%s) for %s:\n%s" % (consumed, total, trace_file, tail))
-    return dict(verdicts=verdicts, consumed=consumed, total=total, states=states)
+    return dict(verdicts=verdicts, consumed=consumed, total=total, states=states, mstats=mstats)
 
 
 def validate_traces(work, spec, trace_files, kvcfg, tag="v", extra_env=None):
@@ -213,7 +218,7 @@ def count_runs(trace_files):
         with open(tf) as f:
             for line in f:
                 ev += 1
-                if line.startswith('{"e":"reset"') or '"e":"reset"' in line[:200]:
+                if '"e":"reset"' in line:
                     n += 1
     return n, ev
 
